@@ -216,6 +216,28 @@ pub fn check(cfg: &Config) -> CheckResult {
     check_profiles(cfg, &PROFILES)
 }
 
+/// very long runs (2^27 .. 2^33 odometer slots) in the optimised build with overflow checks
+pub fn check_long(cfg: &Config) -> CheckResult {
+    let mut o = check_profiles(cfg, &["optchk"])?;
+    o.nontrivial = true;
+    o.classes = if cfg.slots() >= 1u128 << 32 { 2 } else { 1 };
+    Ok(o)
+}
+pub const LONG_CLASSES: &[&str] = &["slots_ge_2_27", "slots_ge_2_32"];
+
+/// Two players whose every combo holds one and the same card (so that every deal is blocked and
+/// costs no evaluation) beside a third range that sets the length of the run, over all 1176
+/// positions: 1176 x 51 x 51 x `third` slots.  With `fourth`, a two-combo player doubles that.
+pub fn long_blocked(flop: [u8; 3], third: usize, fourth: bool, seed: u64) -> Config {
+    let deck = deck49(&flop);
+    let card = deck[(seed % 49) as usize];
+    let mut ranges = vec![holding(card, 51, seed), holding(card, 51, seed ^ 1), sized_range(third, seed ^ 2, true)];
+    if fourth {
+        ranges.push(sized_range(2, seed ^ 3, false));
+    }
+    Config { flop, ranges, scope: None }
+}
+
 pub const CLASSES: &[&str] = &["blocked_run_ge_10k", "blocked_run_ge_100k", "empty_range", "range_over_255", "size_multiple_of_256", "three_plus_players", "unscoped_full_drain", "more_players_than_a_deck_seats", "player_count_ge_128", "empty_range_beside_product_over_2_32", "thirty_thousand_plus_players", "product_of_sizes_beyond_2_64_prefix_only"];
 
 /// a range of `size` combos that all contain `card` (max 51)
@@ -375,7 +397,7 @@ pub fn strategy(slot_budget: u128) -> impl Strategy<Value = Config> {
 }
 
 pub fn run(ctx: &mut Ctx) {
-    ctx.rule = "proptest configurations as data, each drained in a child process on a 2 MiB thread, once per build profile (release: wrapping arithmetic; dbgchk: espada at opt-level 0 with overflow checks and debug assertions): narrow range holding the first deck cards beside wide ranges inside a window of the first turn rows (longest blocked runs), narrow/wide/wide, one player of sizes {0,1,2,255,256,257,511,512,513,768,1024,1326,random} (full drains, first rows, windows at the very end of the deck incl. the empty scope on the terminal position), empty range at any seat, ranges consisting only of flop-card combos, 7-300 single-combo players (23/24/127/128/129/255/256/257 among them), 1,000-100,000 single-combo players in a two-position window, 3-24 big ranges (sizes multiplying past 2^32 and 2^64) with one empty range at any seat, full tables of 6-12 ranges of 100-1000 combos without an empty one (product beyond 2^64: size_hint(), a collect of the first two and three more showdowns), moderate full drains. The child consumes the iterator in one of four ways chosen by the configuration: for loop, size_hint() before every next(), collect(), nth() with steps 0-3. Violation = child panics / dies on a signal (stack overflow) / yields more showdowns than odometer slots / yields anything with an empty range. Non-trivial = order-independent lower bound of the longest blocked run >= 10,000 slots, or a size in {0,255,256,257,>=512}, or >= 24 players; distinct by configuration.".into();
+    ctx.rule = "proptest configurations as data, each drained in a child process on a 2 MiB thread, once per build profile (release: wrapping arithmetic; dbgchk: espada at opt-level 0 with overflow checks and debug assertions): narrow range holding the first deck cards beside wide ranges inside a window of the first turn rows (longest blocked runs), narrow/wide/wide, one player of sizes {0,1,2,255,256,257,511,512,513,768,1024,1326,random} (full drains, first rows, windows at the very end of the deck incl. the empty scope on the terminal position), empty range at any seat, ranges consisting only of flop-card combos, 7-300 single-combo players (23/24/127/128/129/255/256/257 among them), 1,000-100,000 single-combo players in a two-position window, 3-24 big ranges (sizes multiplying past 2^32 and 2^64) with one empty range at any seat, full tables of 6-12 ranges of 100-1000 combos without an empty one (product beyond 2^64: size_hint(), a collect of the first two and three more showdowns), moderate full drains; stream long_drains: runs of 2^27 (thorough: also 2^33) odometer slots in which every deal is blocked (two 51-combo players holding one and the same card beside a third range), in an optimised build of espada with overflow checks and debug assertions (profile optchk). The child consumes the iterator in one of four ways chosen by the configuration: for loop, size_hint() before every next(), collect(), nth() with steps 0-3. Violation = child panics / dies on a signal (stack overflow) / yields more showdowns than odometer slots / yields anything with an empty range. Non-trivial = order-independent lower bound of the longest blocked run >= 10,000 slots, or a size in {0,255,256,257,>=512}, or >= 24 players; distinct by configuration.".into();
     ctx.assumptions = vec![
         "a hang that yields nothing can only hit the watchdog (exit 2, inconclusive), never a violation".into(),
         "debug = cargo's dev settings for espada (opt-level 0, overflow checks, debug assertions); third-party crates are optimised".into(),
@@ -394,6 +416,19 @@ pub fn run(ctx: &mut Ctx) {
     for (c, d) in [("blocked_run_ge_10k", 8), ("empty_range", 10), ("range_over_255", 8), ("size_multiple_of_256", 30), ("unscoped_full_drain", 6), ("more_players_than_a_deck_seats", 30), ("player_count_ge_128", 60), ("product_of_sizes_beyond_2_64_prefix_only", 30)] {
         ctx.require_class("child_drains", c, cases / d);
     }
+    // very long runs: counters that overflow only after 2^27 (quick) or 2^32 (thorough) deals
+    if std::path::Path::new(&child_path("optchk")).exists() {
+        let thorough = ctx.tier == Tier::Thorough;
+        let cases = ctx.tier.pick(2, 4);
+        ctx.run_random_brief(
+            StreamCfg::new("long_drains", LONG_CLASSES, cases).shrink(0),
+            move || (flop_strategy(), any::<u64>(), any::<bool>()).prop_map(move |(flop, seed, big)| if thorough && big { long_blocked(flop, 1326, true, seed) } else { long_blocked(flop, 45 + (seed % 8) as usize, false, seed) }),
+            check_long,
+            |c| json!({"range_sizes": c.ranges.iter().map(|r| r.combos.len()).collect::<Vec<_>>(), "slots": c.slots().to_string()}),
+        );
+    } else {
+        ctx.unhealthy.push(format!("child binary for profile optchk is missing: {}", child_path("optchk")));
+    }
     let wd = WATCHDOG_HITS.load(Ordering::Relaxed);
     let ms = MISSING_CHILD.load(Ordering::Relaxed);
     ctx.extra.insert("watchdog_hits".into(), json!(wd));
@@ -406,6 +441,9 @@ pub fn run(ctx: &mut Ctx) {
     }
 }
 
-pub fn replay(_stream: &str, path: &str, case: &Value) -> i32 {
+pub fn replay(stream: &str, path: &str, case: &Value) -> i32 {
+    if stream == "long_drains" {
+        return replay_case::<Config>("C08", path, case, check_long);
+    }
     replay_case::<Config>("C08", path, case, check)
 }
